@@ -40,6 +40,9 @@ func among(ids ...gpbft.ActorID) func(gpbft.ActorID) bool {
 // candidates; its CONVERGE timeout must still yield a PREPARE and re-arm the alarm
 // (found by TestC07Discipline in the thorough tier, clause d; fixed in /repo).
 func TestC07RegressionSkipFromQualityOnBottomJustification(t *testing.T) {
+	if os.Getenv("VERIF_SKIP_REGRESSION") != "" {
+		t.Skip("development aid: measuring what the generated search finds on its own")
+	}
 	// members 1..4, equal power; 1,2,3 share the input [b,t], 4 (the laggard) has [b,t']
 	cfg := vnet.ManualConfig([]int64{10, 10, 10, 10}, [][]int{{0}, {0}, {0}, {1}})
 	w, fails := scripted(cfg)
